@@ -92,6 +92,23 @@ def corpus():
                "reqs": [rq(0, 0, "streaming"), rq(0, 2, "connecting"), rq(1, 1, "streaming"), rq(0, 1, "before")],
                "action": {"kind": "delete", "cl": 0, "eps": []},
                "after": [rq(0, 0), rq(1, 1), rq(1, 0)]})
+    # drain, then remove: a stream runs on endpoint 0, endpoint 0 is marked disabled (the stream goes on), then it
+    # is taken out of the server list while still disabled: it must leave the map, its context is done, the stream is cut
+    cs.append({"clusters": [cl(0, 2)],
+               "reqs": [rq(0, 0, "streaming"), rq(0, 0, "connecting"), rq(0, 1, "streaming"), rq(0, -1, "before")],
+               "action": {"kind": "remove", "cl": 0, "eps": [0], "drain": [0], "unhealthy": []},
+               "after": [rq(0, 0), rq(0, 1), rq(0, -1)]})
+    # removed while disabled AND unhealthy; a sibling is drained but stays (its stream completes, no new traffic, no probes)
+    cs.append({"clusters": [cl(0, 3, 1), cl(1, 1)],
+               "reqs": [rq(0, 0, "streaming"), rq(0, 1, "streaming", 1), rq(0, 2, "connecting"), rq(1, 0, "streaming")],
+               "action": {"kind": "remove", "cl": 0, "eps": [0], "drain": [0, 1], "unhealthy": [0]},
+               "after": [rq(0, 0), rq(0, 1), rq(0, 2), rq(0, -1), rq(1, 0)]})
+    # disabled -> removed -> re-added (and unlisted while disabled twice) in the history before the scenario; then the
+    # whole cluster is deleted with one endpoint drained
+    cs.append({"clusters": [cl(0, 2, 0, pre=[(1, 1), (2, 1), (0, 1), (1, 2), (1, 0)])],
+               "reqs": [rq(0, 0, "streaming"), rq(0, 1, "connecting")],
+               "action": {"kind": "delete", "cl": 0, "eps": [], "drain": [1], "unhealthy": [1]},
+               "after": [rq(0, 0), rq(0, -1)]})
     # objects that are never admitted because of a server-name collision, created and then deleted while the
     # owner of the name has requests in flight: (a) the object's NAME is an extra server name of cluster 0
     cs.append({"clusters": [cl(0, 2, 1), cl(1, 1)], "ghosts": [{"name": "c0-alias0.example.com", "aliases": []}],
@@ -156,6 +173,12 @@ def gen_scen(rng):
         action = {"kind": "none", "cl": 0, "eps": []}
         teps = []
 
+    if action["kind"] in ("remove", "delete") and rng.chance(1, 2):
+        n = clusters[tcl]["eps"]
+        pool = teps if rng.chance(2, 3) else list(range(n))       # mostly drain what is about to go
+        action["drain"] = sorted(rng.sample(pool, rng.randint(1, len(pool))))
+        action["unhealthy"] = sorted(e for e in teps if e in action["drain"] and rng.chance(1, 3))
+
     def one(phases):
         if rng.chance(3, 5):          # aim at what is going to be removed
             c = tcl
@@ -203,17 +226,21 @@ def coq_case(case, obs):
                      for i, c in enumerate(case["clusters"])])
         a = case["action"]
         ghosts = clist(["(%d, %s)" % (nid(gh["name"]), clist([cZ(nid(x)) for x in gh["aliases"]])) for gh in case.get("ghosts", [])])
-        act = {"delete": "(ADelete %d)" % a["cl"], "none": "ANone", "ghost": "(AGhost %d)" % a["cl"],
-               "remove": "(ARemove %d %s)" % (a["cl"], clist([cZ(e) for e in a["eps"]]))}[a["kind"]]
+        dr = clist([cZ(e) for e in a.get("drain", [])])
+        unh = clist([cZ(e) for e in a.get("unhealthy", [])])
+        act = {"delete": "(ADelete %d %s)" % (a["cl"], dr), "none": "ANone", "ghost": "(AGhost %d)" % a["cl"],
+               "remove": "(ARemove %d %s %s)" % (a["cl"], clist([cZ(e) for e in a["eps"]]), dr)}[a["kind"]]
         ro = [dict(o) for o in obs["reqs"]]
         for o in ro:       # requests sent before the removal: "reached" is part of the observation
             pass
         ao = [dict(o, reached=True) for o in obs["after"]]
-        co = clist(["(mkClobs %s %s %s)" % (clist([cbool(b) for b in c["resolves"]]), cbool(c["ctxdone"]),
-                                            clist(["(mkEobs %s %s %s)" % (cbool(e["inmap"]), cbool(e["ctxdone"]), cZ(e["hits_delta"]))
-                                                   for e in c["eps"]])) for c in obs["clusters"]])
-        return "(CScen %s %s %s %s %s %s %s %s)" % (
-            cls, ghosts, clist([coq_req(r) for r in case["reqs"]]), act, clist([coq_req(dict(r, phase="plain")) for r in case["after"]]),
+        co = clist(["(mkClobs %s %s %s %s)" % (clist([cbool(b) for b in c["resolves"]]), cbool(c["ctxdone"]),
+                                               clist(["(mkEobs %s %s %s)" % (cbool(e["inmap"]), cbool(e["ctxdone"]), cZ(e["hits_delta"]))
+                                                      for e in c["eps"]]),
+                                               clist([clist(["(%s, %s)" % (cbool(x[0]), cbool(x[1])) for x in row]) for row in c["pre"]]))
+                    for c in obs["clusters"]])
+        return "(CScen %s %s %s %s %s %s %s %s %s)" % (
+            cls, ghosts, unh, clist([coq_req(r) for r in case["reqs"]]), act, clist([coq_req(dict(r, phase="plain")) for r in case["after"]]),
             clist([coq_robs(o) for o in ro]), clist([coq_robs(o) for o in ao]), co)
     except (KeyError, ValueError, TypeError, IndexError):
         return "CBroken"
@@ -246,6 +273,10 @@ def stats(case, obs):
     if a["kind"] == "ghost":
         gh = case["ghosts"][a["cl"]]
         labs.append("ghost:" + ("name-is-server-name" if not gh["aliases"] else "claims-taken-server-name"))
+    if a.get("drain"):
+        rem = a["eps"] if a["kind"] == "remove" else list(range(case["clusters"][a["cl"]]["eps"]))
+        for e in a["drain"]:
+            labs.append("drained:" + ("then-removed" if e in rem else "stays-listed") + ("+unhealthy" if e in a.get("unhealthy", []) else ""))
     if a["kind"] in ("delete", "remove"):
         pre = case["clusters"][a["cl"]].get("pre", [])
         vict = a["eps"] if a["kind"] == "remove" else list(range(case["clusters"][a["cl"]]["eps"]))
